@@ -9,7 +9,8 @@
   with the fuel-independent meaning `L0.Conv` (a `Group` node costs one level of fuel, an
   extracted rule two, so equal-fuel statements would be false):
 
-    (1)–(3)   `group_id`, `seq_assoc`, `choice_assoc`, `dup_choice`            unconditional
+    (1)–(3)   `group_id`, `seq_assoc`/`seq_flatten`, `choice_assoc`/`choice_flatten`,
+              `dup_choice`                                                       unconditional
     (4),(5)   `never_seq`, `never_notpred`      when NEVER does not occur in the input and
               implicit trivia is total (`TriviaTotal`); the exact, unconditional forms
               `never_seq_fwd/bwd`, `never_notpred_fwd/bwd` say what happens otherwise
@@ -131,7 +132,7 @@ theorem never_notpred_bwd {e : Expr} {x : Str} (hx : NeverAt inp x) {s : S0} {r 
   L0.never_notpred_bwd hx none none h hs
 
 /-- the harness's NEVER is "␀␁" on inputs that do not contain U+2400 -/
-theorem never_literal (h : inp.all (fun d => d != 0x2400) = true) : NeverAt inp [0x2400, 0x2401] :=
+theorem never_literal (h : inp.toList.all (fun d => d != 0x2400) = true) : NeverAt inp [0x2400, 0x2401] :=
   L0.neverAt_of_all h
 
 /-! ### (6): extraction into a fresh silent rule -/
@@ -380,13 +381,13 @@ theorem demoG1_trivia (inp : Input) : TriviaTotal demoG1 inp := demo_trivia demo
 theorem demoG2_trivia (inp : Input) : TriviaTotal demoG2 inp := demo_trivia demoG2 rfl rfl rfl inp
 
 theorem demo_step1 : GrammarRel (Rewrite demoInp) demoG demoG1 := by
-  apply GrammarRel.of_rules rfl
+  refine GrammarRel.of_rules (g := demoG) (g' := demoG1) rfl ?_
   refine .cons ⟨rfl, rfl, ?_⟩ (.cons ⟨rfl, rfl, ?_⟩ (.cons ⟨rfl, rfl, .refl _⟩ .nil))
   · exact .seq (.cons (.base (.paren _ _)) (.cons (.base (.neverSeq _ _ _ _ demo_never)) .nil))
   · exact .base (.dup _ _)
 
 theorem demo_step2 : GrammarRel (Rewrite demoInp) demoG1 demoG2 := by
-  apply GrammarRel.of_rules rfl
+  refine GrammarRel.of_rules (g := demoG1) (g' := demoG2) rfl ?_
   refine .cons ⟨rfl, rfl, .refl _⟩ (.cons ⟨rfl, rfl, ?_⟩ (.cons ⟨rfl, rfl, .refl _⟩ .nil))
   exact .group (.choice (.cons (.choice (.cons (.refl _)
     (.cons (.base (.neverNot _ _ _ _ demo_never)) .nil))) (.cons (.refl _) .nil)))
@@ -396,17 +397,14 @@ theorem demo_equiv : GEquiv demoG demoG2 demoInp :=
   (L0.rewrites_preserve_parse demo_step1 (demoG_trivia _) (demoG1_trivia _)).trans
     (L0.rewrites_preserve_parse demo_step2 (demoG1_trivia _) (demoG2_trivia _))
 
-example : SkipTotal demoG := by intro r h; simp [Grammar.fusedSkip, Grammar.lookup, demoG] at h
-example : SkipTotal demoG2 := by intro r h; simp [Grammar.fusedSkip, Grammar.lookup, demoG2] at h
-
 mutual
 /-- pre-order signature of a forest (name, start, end, number of children): determines the
     forest up to tags -/
-def Pair.sig : Pair → List (String × Nat × Nat × Nat)
+def sigP : Pair → List (String × Nat × Nat × Nat)
   | .mk n _ s e ch _ => (n, s, e, ch.length) :: sigL ch
 def sigL : List Pair → List (String × Nat × Nat × Nat)
   | [] => []
-  | p :: ps => p.sig ++ sigL ps
+  | p :: ps => sigP p ++ sigL ps
 end
 
 def same1 : R1 → R1 → Bool
@@ -435,18 +433,38 @@ def demoX : Grammar :=
   { rules := [⟨"r", 0, .seq [.str [97], sStar], .grammar⟩, ⟨"s", 0, .ident "xr1" none, .grammar⟩, wsRule,
               ⟨"xr1", SILENT, sBody, .grammar⟩] }
 
-theorem demo_unref : Unreferenced demoG "xr1" := by decide +kernel
+theorem demoG_skipTotal : SkipTotal demoG := by
+  intro r h; have : demoG.fusedSkip = none := rfl; rw [this] at h; cases h
+theorem demoG2_skipTotal : SkipTotal demoG2 := by
+  intro r h; have : demoG2.fusedSkip = none := rfl; rw [this] at h; cases h
+theorem demoX_skipTotal : SkipTotal demoX := by
+  intro r h; have : demoX.fusedSkip = none := rfl; rw [this] at h; cases h
+
+theorem demo_unref : Unreferenced demoG "xr1" := L0.unreferenced_of_all (by decide +kernel)
 
 theorem demo_extract (start : String) (hs : start ≠ "xr1") (k : Nat) (r : R0) (inp : Input) :
     ParseC demoG inp start k r ↔ ParseC demoX inp start k r := by
   apply extract_silent_grammar (nm := "xr1") (e := sBody) rfl demo_unref (by decide) (by decide) (by decide)
     _ rfl hs
-  apply GrammarRel.of_rules rfl
+  refine GrammarRel.of_rules (g := addRule demoG ⟨"xr1", SILENT, sBody, .grammar⟩) (g' := demoX) rfl ?_
   exact .cons ⟨rfl, rfl, .refl _⟩ (.cons ⟨rfl, rfl, .base ⟨rfl, none, rfl⟩⟩
     (.cons ⟨rfl, rfl, .refl _⟩ (.cons ⟨rfl, rfl, .refl _⟩ .nil)))
 
 example : same1 (L1.parse demoG demoInp 30 "r" 0) (L1.parse demoX demoInp 40 "r" 0) = true := by decide +kernel
 example : sameG (LG.parse demoG demoInp 30 "r" 0) (LG.parse demoX demoInp 40 "r" 0) = true := by decide +kernel
+
+/-! #### the lifted theorems applied to these grammars -/
+
+example (n m : Nat) (start : String) (k : Nat) (h1 : L1.parse demoG demoInp n start k ≠ .oof)
+    (h2 : L1.parse demoG2 demoInp m start k ≠ .oof) :
+    obs (L1.parse demoG demoInp n start k) = obs (L1.parse demoG2 demoInp m start k) :=
+  grammar_rewrites_preserve_interp demoG_skipTotal demoG2_skipTotal (demo_equiv start k) n m h1 h2
+
+example (inp : Input) (n m : Nat) (start : String) (hs : start ≠ "xr1") (k : Nat) {b b' : Bool}
+    {cg cg' : PState} {ps ps' : List Pair}
+    (h1 : LG.parse demoG inp n start k = .done b cg ps) (h2 : LG.parse demoX inp m start k = .done b' cg' ps') :
+    b = b' ∧ (b = true → cg.pos = cg'.pos ∧ eraseTagsL ps = eraseTagsL ps') :=
+  grammar_rewrites_preserve_gen demoG_skipTotal demoX_skipTotal (fun r => demo_extract start hs k r inp) n m h1 h2
 
 /-! #### the hypotheses of (4)/(5) and the shape of (2) cannot be dropped -/
 
